@@ -4,7 +4,12 @@
 // Observation kind 0: the calls the reader delivers (weight rules and minimize statements left out), `21 class` when the
 //   reader fails, then `30 a get(a)` for every probe; just `21 class` when converter / writer fail (nothing is read then).
 // kind 1: code consumed [len name.. type bias prio]     kind 2: code consumed [len n0.. len n1..]
+// kind 0, every other case (reuse::primed, a hash of the case): the text is read by a SmodelsInput OBJECT (same options) that has read - or
+// REFUSED inside its rules / inside or after its symbol table / inside its compute statement / in its trailer / in a later step - a primer
+// text before, whose symbol table binds the generator's names to other atoms and has _edge / _acyc_ / _heuristic predicates of its own
+// (reuse.h; chosen by the hash; its calls are discarded). Unprimed cases use readSmodels (a fresh reader) as before.
 #include "rec.h"
+#include "reuse.h"
 #include <potassco/convert.h>
 #include <potassco/smodels.h>
 #include <potassco/match_basic_types.h>
@@ -16,6 +21,7 @@ struct Rec8 : Recorder {
 	void minimize(Potassco::Weight_t, const Potassco::WeightLitSpan&) override {}
 };
 static void trip(Case& c, Obs& o) {
+	const reuse::Primer* pr = reuse::primed(c) ? &reuse::smodelsPrimer(c, true) : 0;
 	bool cE = c.next() != 0, cH = c.next() != 0, flt = c.next() != 0;
 	std::vector<ll> probes;
 	for (ll n = c.next(); n > 0 && c.more(); --n) { probes.push_back(c.next()); }
@@ -34,8 +40,15 @@ static void trip(Case& c, Obs& o) {
 	if (cH)  { opts.convertHeuristic(); }
 	if (flt) { opts.dropConverted(); }
 	Rec8 rec(o);
+	std::istringstream primer(std::string(pr ? pr->text : ""));
 	try {
-		Potassco::readSmodels(text, rec, 0, opts);
+		if (pr) {
+			Potassco::SmodelsInput reader(rec, opts);
+			const std::string keep = o.s;                       // (empty here) the primer's calls are dropped
+			reuse::prime(reader, primer); o.s = keep;
+			Potassco::readProgram(text, reader, 0);             // = readSmodels on an existing reader object
+		}
+		else { Potassco::readSmodels(text, rec, 0, opts); }
 	}
 	catch (const std::bad_alloc&) { o.add(21); o.add(3); }
 	catch (const std::logic_error&) { o.add(21); o.add(1); }
